@@ -32,6 +32,12 @@ def stepAmp (w : AmpW) : List String → AmpW × String
     match i.toNat? with
     | some i => fin w (step w.n (.validate i))
     | none => (w, "bad-op")
+  -- the path at index i is validated; the cause is what the wire showed:
+  -- `hs` a Handshake packet arrived on it, `resp` a PATH_RESPONSE echoed the challenge sent to it
+  | ["amp.validate", i, cause] =>
+    match i.toNat? with
+    | some i => if cause = "hs" ∨ cause = "resp" ∨ cause = "own" then fin w (step w.n (.validate i)) else (w, "bad-op")
+    | none => (w, "bad-op")
   | ["amp.promote", i] =>
     match i.toNat? with
     | some i => fin w (step w.n (.promote i))
